@@ -48,6 +48,25 @@ def discover(F):
             heap = [f for f in ifs if "BinaryHeap<" in f["ty"]]
             size = [f for f in ifs if f["ty"] == "usize"]
             closed = [f for f in ifs if f["ty"] == "bool"]
+            if len(heap) == 1 and len(size) > 1 and len(closed) == 1:
+                # several counters in the state: the byte count is the one that is compared with the capacity
+                score = {}
+                for f in F.funcs.values():
+                    if not f.d.get("container", "").startswith(key):
+                        continue
+                    exd = Exprs(f)
+                    for b in f.blocks:
+                        t = b["term"]
+                        if t["k"] != "switch":
+                            continue
+                        ce = exd.operand(t["discr"])
+                        has_cap = contains(ce, lambda x: isinstance(x, tuple) and x[0] == "field" and x[2] == caps[0]["name"])
+                        for fld in size:
+                            if has_cap and contains(ce, lambda x, n=fld["name"]: isinstance(x, tuple) and x[0] == "field" and x[2] == n):
+                                score[fld["name"]] = score.get(fld["name"], 0) + 1
+                best = sorted(score.items(), key=lambda kv: -kv[1])
+                if best and (len(best) == 1 or best[0][1] > best[1][1]):
+                    size = [fld for fld in size if fld["name"] == best[0][0]]
             if len(heap) == 1 and len(size) == 1 and len(closed) == 1:
                 m2 = re.search(r"BinaryHeap<([A-Za-z0-9_:]+)", heap[0]["ty"])
                 wrap = F.adts.get(m2.group(1)) if m2 else None
@@ -115,6 +134,30 @@ def run(F, rep):
                 if s["k"] == "assign" and s["rv"]["k"] == "rawptr":
                     unsafe_free = False
     rep.ob("C06-Q1", "no raw-pointer access in queue operations", unsafe_free)
+
+    # ------------------------------------------------------------ Q9: a cloned handle is the same monitor
+    # Handles are cloned across threads; every handle must refer to the same mutex, the same two condition variables and the
+    # same capacity.  In Clone::clone each field of the result comes from the field of the same name (a slip such as
+    # `not_empty: self.not_full.clone()` leaves consumers parked on a condvar nobody notifies).
+    for f in F.funcs.values():
+        if f.d.get("trait") == "core::clone::Clone" and f.key.endswith("::clone") and (f.d.get("self_ty", "").startswith(outer) or f.d.get("container", "").find(outer.rsplit("::", 1)[-1]) >= 0):
+            exc = Exprs(f)
+            agg = None
+            for b in f.blocks:
+                for s_ in b["stmts"]:
+                    if s_["k"] == "assign" and s_["rv"]["k"] == "agg" and s_["rv"].get("adt") == outer:
+                        agg = s_["rv"]
+            if agg is None:
+                rep.ob("C06-Q9", "Clone for the queue builds the handle field by field", False, site="%s:%d" % (f.file, f.line_lo), key="C06-Q9 | clone | aggregate")
+                continue
+            bad = []
+            for fname, op in zip(agg["fields"], agg["ops"]):
+                e = exc.operand(op)
+                srcs = {x[2] for x in walk(e) if isinstance(x, tuple) and x[0] == "field" and isinstance(x[2], str) and x[1] == ("param", "self")}
+                if srcs != {fname}:
+                    bad.append("%s <- %s" % (fname, sorted(srcs) or fmt(e)[:40]))
+            rep.ob("C06-Q9", "a cloned handle shares every part of the monitor: each field is cloned from the field of the same name", not bad,
+                   detail="; ".join(bad) if bad else "%d fields" % len(agg["fields"]), site="%s:%d" % (f.file, f.line_lo), key="C06-Q9 | clone | field-wise")
 
     # ------------------------------------------------------------ classify events
     def ccall(t, ex):
